@@ -137,12 +137,14 @@ func (v *Verifier) verifyFunc(fn *ssa.Function, fc *FuncContract) (res *FuncResu
 	}
 	// preconditions
 	env := fr.entryEnv()
+	var reqTerms []string
 	for _, r := range fc.Requires {
 		t, err := env.evalBool(r.E)
 		if err != nil {
 			panic(evalError{fmt.Sprintf("requires of %s: %v", shortKey(fc.Key), err)})
 		}
 		c.assume(t)
+		reqTerms = append(reqTerms, t.S)
 	}
 	nEntryFacts := len(c.facts)
 	for _, g := range fc.GhostAts {
@@ -170,12 +172,23 @@ func (v *Verifier) verifyFunc(fn *ssa.Function, fc *FuncContract) (res *FuncResu
 			}
 		}
 		envX := fr.exitEnv(results)
+		nBefore := len(c.obls)
 		for _, e := range fc.Ensures {
 			t, err := envX.evalBool(e.E)
 			if err != nil {
 				panic(evalError{fmt.Sprintf("ensures of %s: %v", shortKey(fc.Key), err)})
 			}
 			fr.oblige("ensures", e.Label, t, fn.Pos(), "postcondition: "+e.Src)
+		}
+		// for the model replay of scalar functions: the terms of parameters and results
+		if rs := scalarReplaySpec(fn, fr.params, results, v.P); rs != nil {
+			rs.ReqTerms = reqTerms
+			if os.Getenv("GVC_REPLAY_DEBUG") != "" {
+				fmt.Fprintln(os.Stderr, "model-replay eligible:", shortKey(fc.Key))
+			}
+			for _, o := range c.obls[nBefore:] {
+				o.replay = rs
+			}
 		}
 		if isInit && fn.Pkg != nil {
 			for _, gi := range v.CS.GInvs {
